@@ -40,6 +40,12 @@ recorded as outcomes; afterwards position, shape and phases are re-read from the
 reported state, which must be an integer position and a shape agreeing with the phases, and every
 later VALID request is judged by the usual oracle from there (after_invalid_call|...).
 Depth 3 (thorough 4), 2 configurations x 7 roots.
+Large single requests: L {5,8,10,12,20} x shape {None,(2,),(3,2),(4,4)}, ONE request whose
+temporary L*prod(shape)*n sits just below / just above 2^20 and at 1.5, 3, 5 x 2^20 elements (quick:
+two sizes per (L, shape), rotating, a strided sample subset incl. first/last/power-of-two
+boundaries, all rays; thorough: 14 sizes up to 8 x 2^20, every sample) against the Jakes sum
+computed here ray by ray in chunks, and against the same stretch in smaller requests on an
+identically seeded second generator.
 Function part: generate_jakes_samples with explicit current_time (6 start positions x chains of
 two calls, n in {1,7,100,4097}) - shape, returned time, values.  RayleighSampleGenerator: shape /
 count clause only (generate, skip, shape setter, get_similar_fading_generator).
@@ -762,7 +768,119 @@ def rayleigh_case(chk, case):
                     chk.outcome("rayleigh", (kind, cur))
 
 
+# ----------------------------------------------------------------------
+# large single requests: the temporary L x shape x n of ONE request crosses plausible size caps
+# ----------------------------------------------------------------------
+LARGE_L = (5, 8, 10, 12, 20)
+LARGE_SHAPES = (None, (2,), (3, 2), (4, 4))
+LARGE_UNIT = 2 ** 20
+LARGE_WINDOW = 384        # samples per window regenerated by the second generator
+
+
+def large_cases(seed, thorough):
+    """[(cfg, n)]: request sizes whose temporary size L*prod(shape)*n sits just below / just above powers of
+    two and at 1.5, 3, 5 times 2**20 elements (quick: two sizes per (L, shape), rotating; thorough: all)"""
+    small = ((1.0, 0), (1.0, 1), (1.5, 0))
+    big = ((3.0, 0), (5.0, 0))
+    extra = ((2.0, 0), (2.0, 1), (3.0, 1), (4.0, 0), (4.0, 1), (5.0, 1), (6.0, 0), (7.0, 0), (8.0, 0))
+    out = []
+    i = 0
+    for L in LARGE_L:
+        for shape in LARGE_SHAPES:
+            per = L * int(np.prod(shape_tuple(shape), dtype=int))
+            targets = (small + big + extra) if thorough else (small[i % 3], big[i % 2])
+            for mult, plus in targets:
+                n = int(mult * LARGE_UNIT) // per + plus
+                cfg = dict(Fd=100.0, Ts=1e-3, L=L, shape=shape, index=4000 + i, rs_seed=55000 + 1000 * seed + i,
+                           k_start=1)
+                out.append((cfg, n, "%gx2^20%s" % (mult, "+" if plus else "")))
+            i += 1
+    return out
+
+
+def jakes_at(cfg, phi, psi, positions):
+    """first-principles value at arbitrary integer positions, all rays, one ray at a time"""
+    t = np.asarray(positions, dtype=np.int64).astype(float) * cfg["Ts"]
+    acc = np.zeros(shape_tuple(cfg["shape"]) + (t.size,), dtype=complex)
+    for l in range(cfg["L"]):
+        acc += np.exp(1j * (2.0 * math.pi * cfg["Fd"] * np.cos(phi[l]) * t + psi[l]))
+    return acc / math.sqrt(cfg["L"])
+
+
+def large_case(chk, cfg, n, label, full):
+    case = dict(case_of(cfg, (("generate", n),)), part="large", label=label, full=bool(full))
+    shp = shape_tuple(cfg["shape"])
+    per = cfg["L"] * int(np.prod(shp, dtype=int))
+    chk.count("eval_large_requests")
+    chk.count("large_request_temporary_elements", per * n)
+    chk.outcome("large_request", (cfg["L"], cfg["shape"], label))
+    chk.nontriv(("large", cfg["L"], cfg["shape"], n))
+    g = new_generator(cfg)
+    phi = np.array(g._phi_l, dtype=float, copy=True)
+    psi = np.array(g._psi_l, dtype=float, copy=True)
+    g.generate_more_samples(n)                     # positions 1 .. n in ONE request
+    s = np.asarray(g.get_samples())
+    if s.shape != shp + (n,):
+        chk.fail(("generate_more_samples", "large_single_request", "wrong_shape"), case, observed=s.shape,
+                 expected=shp + (n,))
+        return
+    tol = value_tol(cfg, n + 1)
+    if full:
+        idx = np.arange(n)
+    else:
+        # first / last samples, an even stride, and both sides of every power-of-two boundary
+        idx = set(range(0, min(n, 64))) | set(range(max(0, n - 64), n)) | set(range(0, n, max(1, n // 1500)))
+        b = 256
+        while b < n:
+            idx |= {b - 1, b}
+            b *= 2
+        idx = np.array(sorted(idx))
+    worst = 0.0
+    for a in range(0, idx.size, 8192):             # the oracle itself works in chunks
+        part = idx[a:a + 8192]
+        d = np.abs(s[..., part] - jakes_at(cfg, phi, psi, part + 1))
+        worst = max(worst, float(d.max()))
+    chk.count("samples_compared", int(idx.size) * int(np.prod(shp, dtype=int)))
+    if not worst <= tol:
+        chk.fail(("generate_more_samples", "large_single_request", "value_vs_jakes_formula"), case,
+                 observed="max |h-ref| = %.3e over %d compared samples (all %d rays), tolerance %.3e, "
+                 "temporary %d elements" % (worst, idx.size, cfg["L"], tol, per * n),
+                 expected="L^-1/2 sum over ALL rays")
+    if not np.all(np.abs(s) <= math.sqrt(cfg["L"]) * (1 + 1e-12)):
+        chk.fail(("generate_more_samples", "large_single_request", "magnitude_exceeds_sqrt_L"), case,
+                 observed=float(np.abs(s).max()))
+    # the same stretch in smaller requests on a second generator with the same seed
+    f = new_generator(cfg)
+    pos = 1
+    starts = sorted(set([1, max(1, n // 2 - LARGE_WINDOW // 2), max(1, n - LARGE_WINDOW + 1)])) if not full \
+        else list(range(1, n + 1, 4096))
+    win = LARGE_WINDOW if not full else 4096
+    for a in starts:
+        if a < pos:
+            continue
+        if a > pos:
+            f.skip_samples_for_next_generation(a - pos)
+        m = min(win, n + 1 - a)
+        f.generate_more_samples(m)
+        w = np.asarray(f.get_samples())
+        pos = a + m
+        chk.count("eval_differential_smaller_requests")
+        if w.shape != shp + (m,) or not np.all(np.abs(w - s[..., a - 1:a - 1 + m]) <= tol):
+            chk.fail(("generate_more_samples", "large_single_request", "differs_from_smaller_requests"), case,
+                     observed=s[..., a - 1:a + 2].ravel()[:3], expected=w.ravel()[:3])
+            break
+
+
 def run_config(chk, cfg, depth):
+    if cfg.get("large"):
+        thorough = chk.tier == "thorough"
+        for c2, n, label in cfg["cases"]:
+            with chk.guard(("jakes", "large_single_request"), dict(case_of(c2, (("generate", n),)), part="large")):
+                large_case(chk, c2, n, label, thorough)
+            chk.states += 1
+            chk.transitions += 1
+            chk.traces_validated += 1
+        return
     if cfg.get("life"):
         return run_life(chk, cfg, depth)
     if cfg.get("other_parts"):
@@ -803,6 +921,10 @@ def plan(chk):
     for c in sorted(block_configs(chk.seed, thorough),
                     key=lambda c: -(c["L"] * (3 if c["shape"] else 4))):
         jobs.append((c, 3))
+    lc = large_cases(chk.seed, thorough)
+    nl = 16 if thorough else 4
+    for j in range(nl):
+        jobs.append((dict(large=True, cases=lc[j::nl], Fd=100.0, Ts=1e-3, L=0, shape=None, rs_seed=0, index=-3), 1))
     for c in life_configs(chk.seed, thorough):
         jobs.append((c, 4 if thorough else 3))
     jobs.append((dict(other_parts=True, Fd=0.0, Ts=1.0, L=1, shape=None, rs_seed=0, index=-2), 0))
@@ -842,6 +964,7 @@ def main(chk: Check):
         chk.require_outcomes("invalid_call", 6)
         chk.require_outcomes("function_call", 12)
         chk.require_outcomes("rayleigh", 6)
+        chk.require_outcomes("large_request", 30)
 
 
 def replay(case, chk: Check):
@@ -853,6 +976,12 @@ def replay(case, chk: Check):
     if part == "rayleigh":
         with chk.guard(("rayleigh",), case):
             rayleigh_case(chk, case)
+        return
+    if part == "large":
+        cfg = dict(Fd=case["Fd"], Ts=case["Ts"], L=case["L"], shape=_tuplify(case["shape"]),
+                   rs_seed=case["rs_seed"], k_start=1, index=-1)
+        with chk.guard(("jakes", "large_single_request"), case):
+            large_case(chk, cfg, int(case["history"][0][1]), case.get("label", ""), case.get("full", False))
         return
     if part == "lifecycle":
         cfg = dict(Fd=case["Fd"], Ts=case["Ts"], L=case["L"], shape=_tuplify(case["shape"]),
